@@ -215,7 +215,22 @@ def run_pipeline(problem, domain, exact, seed, nref):
                 for e in list(mesh.leaf_elements):
                     if e.h_x > 1:
                         mesh.refine_space(e)
-            for _ in range(nref):
+            if nref < 0:
+                # slab-graded mesh: three time slabs, the last one refined twice in space around one point (the closure
+                # grades the slab below once): strictly nested space intervals in non-adjacent slabs
+                def find(t, x):
+                    for el in mesh.leaf_elements:
+                        if el.time_interval[0] <= t < el.time_interval[1] and el.space_interval[0] <= x < el.space_interval[1]:
+                            return el
+                for el in list(mesh.leaf_elements):
+                    mesh.refine_time(el)
+                for el in list(mesh.leaf_elements):
+                    if el.time_interval[0] >= 0.5 and not el.children:
+                        mesh.refine_time(el)
+                x0 = float(mesh.gamma_space.pw_start[0]) + 0.3 * float(mesh.gamma_space.pw_start[1] - mesh.gamma_space.pw_start[0])
+                for _ in range(2):
+                    mesh.refine_space(find(0.9, x0))
+            for _ in range(max(nref, 0)):
                 e = rng.choice(list(mesh.leaf_elements))
                 ax = 1 if e.h_x ** 2 / e.h_t > 8 else rng.randrange(2)
                 if ax == 0 and e.h_x ** 2 / e.h_t * 2 > 32:
@@ -251,7 +266,7 @@ def run_pipeline(problem, domain, exact, seed, nref):
             exc = "residual evaluation: %s: %s" % (type(ex).__name__, str(ex)[:120])
     emit({"k": "run", "mode": "pipeline", "problem": problem, "domain": domain, "exact": exact, "exc": exc})
     if not exc:
-        records(problem, domain, exact, "refined-%d" % nref, elems, residual, mat, rhs, Phi)
+        records(problem, domain, exact, ("refined-%d" % nref) if nref >= 0 else "slab-graded", elems, residual, mat, rhs, Phi)
 
 
 if __name__ == "__main__":
